@@ -44,8 +44,10 @@ Inductive dact :=
 | DHeadP (a : option hdr)    (* Head() whose network head request (getter.Head with the subjective head it captured) is
                                 slow: parked inside the getter until DRelT, then answered with a *)
 | DAnswer (a : gans)
-| DRelL                      (* release the sync loop's gated Store.Append *)
-| DRelT (i : nat).           (* release learner call i's gated Store.Append *)
+| DRelL                      (* release the sync loop's parked Store.Append: the write goes on *)
+| DRelT (i : nat)            (* release learner call i: its parked Store.Append, or the parked call itself (DDeliverP / DHeadP) *)
+| DFailL                     (* the sync loop's parked Store.Append fails *)
+| DFailT (i : nat).          (* learner call i's parked Store.Append fails *)
 
 Record obs := Obs {
   o_ret : N;                 (* DDeliver: 1 = verifier returned nil, 2 = error, 3 = still running (gated); other actions: 0 *)
@@ -54,7 +56,9 @@ Record obs := Obs {
   o_lid : N;                 (* its hash identity *)
   o_id : N; o_from : N; o_to : N; o_err : bool; o_height : N;   (* State() *)
   o_req : option (N * N);    (* outstanding GetRangeByHeight call (from height, to) *)
-  o_hid : N                  (* hash identity of the header the real Store serves at its head height *)
+  o_hid : N;                 (* hash identity of the header the real Store serves at its head height *)
+  o_top : N                  (* highest height among head+1..head+4 at which the real Store serves a header; head if none:
+                                anything above the head is a gap in the store *)
 }.
 
 Definition optNN_eqb (a b : option (N * N)) : bool :=
@@ -63,7 +67,7 @@ Definition optNN_eqb (a b : option (N * N)) : bool :=
 Definition obs_eqb (a b : obs) : bool :=
   (o_ret a =? o_ret b) && (o_head a =? o_head b) && (o_local a =? o_local b) && (o_lid a =? o_lid b) && (o_id a =? o_id b)
   && (o_from a =? o_from b) && (o_to a =? o_to b) && Bool.eqb (o_err a) (o_err b)
-  && (o_height a =? o_height b) && optNN_eqb (o_req a) (o_req b).
+  && (o_height a =? o_height b) && optNN_eqb (o_req a) (o_req b) && (o_top a =? o_top b).
 
 Definition isSome {A} (o : option A) : bool := match o with Some _ => true | None => false end.
 
@@ -77,10 +81,14 @@ Definition cur_req (c : cfg) : option (N * N) :=
 Definition store_head_id (c : cfg) : N :=
   match rs_get (rs_head (c_store c)) (c_store c) with Some h => h_id h | None => 0 end.
 
+Definition store_top (c : cfg) : N :=
+  let s := c_store c in
+  fold_left (fun top k => if rs_has (rs_head s + k) (rs_log s) then rs_head s + k else top) [1; 2; 3; 4] (rs_head s).
+
 Definition observe (ret : N) (c : cfg) : obs :=
   let st := c_state c in
   Obs ret (rs_head (c_store c)) (h_height (local_head c)) (h_id (local_head c)) (ss_id st) (ss_from st) (ss_to st)
-      (isSome (ss_err st)) (state_height c) (cur_req c) (store_head_id c).
+      (isSome (ss_err st)) (state_height c) (cur_req c) (store_head_id c) (store_top c).
 
 (** [obs_eqb] leaves [o_hid] aside: which of two different headers appended at one height the Store serves is
     the Store's business (C04); C07's honest world has no such pairs and compares it exactly ([hid_eqb]) *)
@@ -125,24 +133,65 @@ Definition at_hd1 (c : cfg) (i : nat) : bool :=
 
 Definition held (hold : list nat) (c : cfg) (i : nat) : bool := existsb (Nat.eqb i) hold && (at_sl4 c i || at_hd1 c i).
 
-Fixpoint t_run_h (hold : list nat) (fuel : nat) (i : nat) (c : cfg) : cfg :=
+(** with the gate (C03's slow-store corpus cases) every underlying Store.Append parks right before the write:
+    syncStore.Append has checked the list and holds its lock, nothing has changed yet (/repo f604e5b: the head
+    moves after the write).  [pk] = who holds a parked write ([Some None] the sync loop, [Some (Some i)] learner
+    call i); while there is one nobody else can start an Append.  The driver releases it ([DRelL] / [DRelT]: the
+    Append happens, [astep]) or fails it ([DFailL] / [DFailT]: [l_fail] / [t_fail]). *)
+Definition parkst := option (option nat).
+
+Definition writes (c : cfg) (hs : list hdr) : bool :=
+  match shim_check (c_cache c) hs with ShimOk _ | ShimSkip => true | _ => false end.
+Definition sl0_hdr (c : cfg) (i : nat) : option hdr :=
+  match nth_error (c_thr c) i with Some (TRun _ _ x SL0 _) => Some x | _ => None end.
+
+Fixpoint t_run_h (hold : list nat) (fuel : nat) (i : nat) (cp : cfg * parkst) : cfg * parkst :=
+  let '(c, pk) := cp in
   match fuel with
-  | O => c
-  | S f => if t_blocked gate i c || held hold c i then c else t_run_h hold f i (t_astep drift tvf i c)
+  | O => cp
+  | S f =>
+    if t_blocked false i c || held hold c i then cp
+    else
+      match (if gate then sl0_hdr c i else None) with
+      | Some x =>
+        match pk with
+        | Some _ => cp                                              (* the lock is taken *)
+        | None => if writes c [x] then (c, Some (Some i))           (* parked in the store *)
+                  else t_run_h hold f i (t_astep drift tvf i c, pk)  (* refused by the shim: no write *)
+        end
+      | None => t_run_h hold f i (t_astep drift tvf i c, pk)
+      end
   end.
 
-Fixpoint settle_thr (hold : list nat) (n : nat) (c : cfg) : cfg :=
+Fixpoint l_run_g (fuel : nat) (cp : cfg * parkst) : cfg * parkst :=
+  let '(c, pk) := cp in
+  match fuel with
+  | O => cp
+  | S f =>
+    if l_blocked false c then cp
+    else
+      match (if gate then (match c_loop c with LApp0 _ hs => Some hs | _ => None end) else None) with
+      | Some hs =>
+        match pk with
+        | Some _ => cp
+        | None => if writes c hs then (c, Some None) else l_run_g f (l_astep GErr c, pk)
+        end
+      | None => l_run_g f (l_astep GErr c, pk)
+      end
+  end.
+
+Fixpoint settle_thr (hold : list nat) (n : nat) (cp : cfg * parkst) : cfg * parkst :=
   match n with
-  | O => c
-  | S k => let c' := settle_thr hold k c in t_run_h hold big_fuel k c'
+  | O => cp
+  | S k => let cp' := settle_thr hold k cp in t_run_h hold big_fuel k cp'
   end.
 
-Definition settle (hold : list nat) (c : cfg) : cfg :=
-  let c1 := settle_thr hold (length (c_thr c)) c in
-  let c2 := l_arun big_fuel c1 in
+Definition settle (hold : list nat) (cp : cfg * parkst) : cfg * parkst :=
+  let c1 := settle_thr hold (length (c_thr (fst cp))) cp in
+  let c2 := l_run_g big_fuel c1 in
   (* a learner that was waiting for incomingMu may proceed once another released it *)
-  let c3 := settle_thr hold (length (c_thr c2)) c2 in
-  l_arun big_fuel c3.
+  let c3 := settle_thr hold (length (c_thr (fst c2))) c2 in
+  l_run_g big_fuel c3.
 
 Definition ret_of (c : cfg) (i : nat) : N :=
   match nth_error (c_thr c) i with
@@ -153,57 +202,68 @@ Definition ret_of (c : cfg) (i : nat) : N :=
   end.
 
 (** one driver action; [None] = the action is impossible in the model's state *)
-Definition act (hold : list nat) (c : cfg) (a : dact) : option (cfg * N * list nat) :=
+Definition act (hold : list nat) (cp : cfg * parkst) (a : dact) : option (cfg * parkst * N * list nat) :=
+  let '(c, pk) := cp in
   match a with
   | DDeliver h now b =>
     let i := length (c_thr c) in
-    let c' := settle hold (step drift tvf c (EGossip h now b)) in
-    Some (c', ret_of c' i, hold)
+    let cp' := settle hold (step drift tvf c (EGossip h now b), pk) in
+    Some (cp', ret_of (fst cp') i, hold)
   | DDeliverP h now b =>
     let i := length (c_thr c) in
     let hold' := i :: hold in
-    let c' := settle hold' (step drift tvf c (EGossip h now b)) in
-    Some (c', ret_of c' i, hold')
+    let cp' := settle hold' (step drift tvf c (EGossip h now b), pk) in
+    Some (cp', ret_of (fst cp') i, hold')
   | DHead ans =>
-    let c' := settle hold (step drift tvf c (EHead ans)) in
-    Some (c', 0, hold)
+    let cp' := settle hold (step drift tvf c (EHead ans), pk) in
+    Some (cp', 0, hold)
   | DHeadP ans =>
     let i := length (c_thr c) in
     let hold' := i :: hold in
-    let c' := settle hold' (step drift tvf c (EHead ans)) in
-    Some (c', 0, hold')
+    let cp' := settle hold' (step drift tvf c (EHead ans), pk) in
+    Some (cp', 0, hold')
   | DAnswer ans =>
     match cur_req c with
-    | Some _ => Some (settle hold (l_astep (expand ans c) c), 0, hold)
+    | Some _ => Some (settle hold (l_astep (expand ans c) c, pk), 0, hold)
     | None => None
     end
   | DRelL =>
-    match c_loop c with
-    | LApp2 _ _ => Some (settle hold (l_astep GErr c), 0, hold)
+    match pk with
+    | Some None => Some (settle hold (l_astep GErr c, None), 0, hold)
+    | _ => None
+    end
+  | DFailL =>
+    match pk with
+    | Some None => Some (settle hold (l_fail c, None), 0, hold)
     | _ => None
     end
   | DRelT i =>
     if held hold c i then
       let hold' := filter (fun j => negb (Nat.eqb i j)) hold in
-      Some (settle hold' c, 0, hold')
+      Some (settle hold' (c, pk), 0, hold')
     else
-      match nth_error (c_thr c) i with
-      | Some (TRun _ _ _ SL2 _) => Some (settle hold (t_astep drift tvf i c), 0, hold)
+      match pk with
+      | Some (Some j) => if Nat.eqb i j then Some (settle hold (t_astep drift tvf i c, None), 0, hold) else None
       | _ => None
       end
-  end.
-
-Fixpoint sim_h (hold : list nat) (c : cfg) (acts : list dact) : list obs * cfg :=
-  match acts with
-  | [] => ([], c)
-  | a :: r =>
-    match act hold c a with
-    | None => ([], c)
-    | Some (c', ret, hold') => let '(os, cf) := sim_h hold' c' r in (observe ret c' :: os, cf)
+  | DFailT i =>
+    match pk with
+    | Some (Some j) => if Nat.eqb i j then Some (settle hold (t_fail i c, None), 0, hold) else None
+    | _ => None
     end
   end.
 
-Definition sim (c : cfg) (acts : list dact) : list obs * cfg := sim_h [] c acts.
+Fixpoint sim_h (hold : list nat) (cp : cfg * parkst) (acts : list dact) : list obs * cfg :=
+  match acts with
+  | [] => ([], fst cp)
+  | a :: r =>
+    match act hold cp a with
+    | None => ([], fst cp)
+    | Some (cp', ret, hold') => let '(os, cf) := sim_h hold' cp' r in (observe ret (fst cp') :: os, cf)
+    end
+  end.
+
+Definition sim (c : cfg) (acts : list dact) : list obs * cfg := sim_h [] (c, None) acts.
 
 End sim.
 
@@ -296,8 +356,8 @@ Fixpoint walk07 (all : list (dact * obs)) (u : list hdr) (newest : N) (prev : ob
   | [] => true
   | (a, o) :: r =>
     let newest' := N.max newest (accepted_height all a o) in
-    (* the Store's head is the true chain's header of that height *)
-    existsb (fun h => (h_height h =? o_head o) && (h_id h =? o_hid o)) u &&
+    (* the Store's head is the true chain's header of that height, and the Store holds nothing above it (no gap) *)
+    existsb (fun h => (h_height h =? o_head o) && (h_id h =? o_hid o)) u && (o_top o =? o_head o) &&
     (* the subjective head is the newest verified head, whatever the sync loop is doing *)
     (o_local o =? newest')
     (* Syncer.Head() is never below the head handed to the Store *)
@@ -369,7 +429,7 @@ Definition ok07 (k : case07) : bool :=
   let u := k_init k ++ k_chain k in
   let h0 := h_height (last (k_init k) hdr_nil) in
   if honest07 u None (k_acts k) then
-    let o0 := Obs 0 h0 h0 0 0 0 0 false h0 None 0 in
+    let o0 := Obs 0 h0 h0 0 0 0 0 false h0 None 0 h0 in
     walk07 (k_acts k) u h0 o0 (k_acts k) && final07 k h0
     (* what the Store serves at the end is exactly tail..head, true chain headers *)
     && (match last_opt (map snd (k_acts k)) with
